@@ -17,8 +17,8 @@ class Sink:
         from engine.inline import flatten
         F = ck.facts
         self.F = F
-        raw = {name: F.fn(RP + "::" + name) for name in METHODS}
         raw_send = F.fn(RS + "::send")
+        raw = self._resolve_roles(F, raw_send)
         raw_io = F.fn(IO + "::send")
         raw_ctor = [f for f in F.fn_all(FS + "::FileSink") if f.d.get("kind") == "ctor" and not f.d.get("copyctor") and not f.d.get("movector")][0]
         raw_crc = F.fn("calculateCRC32")
@@ -39,6 +39,53 @@ class Sink:
         if fn.id not in self._g:
             self._g[fn.id] = Graph(fn)
         return self._g[fn.id]
+
+    OPTIONAL = ("checkStartupRotation", "baseDir")
+
+    def _resolve_roles(self, F, send):
+        """the private functions the rules look at, by name and - when a maintainer renamed one - by role (what it calls /
+        what it is called with); a role that has been folded into its caller is simply absent (optional ones only)"""
+        out = {}
+        members = [f for f in F.fns.values() if f.cls == RP and f.body is not None and not f.lambda_of]
+
+        def calls_qt(f, names):
+            return any(name_is(strip_tmpl(n.get("callee") or ""), names) for n in f.calls())
+
+        def callees(f):
+            return [F.fns[n["fn"]] for n in f.calls() if n.get("fn") in F.fns and F.fns[n["fn"]].cls == RP]
+        for name in METHODS:
+            f = F.fn(RP + "::" + name, optional=True)
+            if f is not None:
+                out[name] = f
+        def pick(name, cands, why):
+            if name in out:
+                return
+            cands = [c for c in {c.id: c for c in cands}.values() if c.id not in {x.id for x in out.values()}]
+            if len(cands) == 1:
+                out[name] = cands[0]
+                self.renamed = getattr(self, "renamed", []) + ["%s is %s (%s)" % (name, strip_tmpl(cands[0].name).split("::")[-1], why)]
+        pick("rotate", [f for f in members if calls_qt(f, ("QFile::rename",))], "the member that renames the log file")
+        pick("compressFile", [f for f in members if calls_qt(f, ("qCompress",))], "the member that calls qCompress")
+        pick("findRotatedFiles", [f for f in members if calls_qt(f, ("std::sort", "std::stable_sort"))], "the member that sorts the directory entries")
+        pick("removeOldFiles", [f for f in members if "findRotatedFiles" in out and any(n.get("fn") == out["findRotatedFiles"].id for n in f.calls())], "the member that consumes findRotatedFiles()")
+        pick("findNextIndexForDate", [f for f in members if f.d.get("ret") == "int" and calls_qt(f, ("QDir::entryList",))], "the int-valued member that lists the directory")
+        pick("generateRotatedFileName", [f for f in members if "QString" in (f.d.get("ret") or "") and len(f.params) == 2 and "QDate" in f.params[0].get("type", "")], "QString f(QDate, int)")
+        sc = [F.fns[n["fn"]] for n in send.calls() if n.get("fn") in F.fns and F.fns[n["fn"]].cls == RP]
+        pick("rotateIfNeeded", [f for f in sc if f.params and "LogMessage" in f.params[0].get("type", "")], "the member send() passes the message to")
+        pick("init", [f for f in sc if not f.params], "the parameterless member send() calls first")
+        if "rotateIfNeeded" in out:
+            cs = callees(out["rotateIfNeeded"])
+            pick("checkDailyRotation", [f for f in cs if len(f.params) == 1 and "QDate" in f.params[0].get("type", "")], "the member rotateIfNeeded() calls with a date")
+            pick("checkSizeRotation", [f for f in cs if len(f.params) == 1 and "QDate" not in f.params[0].get("type", "") and "LogMessage" not in f.params[0].get("type", "")], "the member rotateIfNeeded() calls with a size")
+        missing = [m for m in METHODS if m not in out and m not in self.OPTIONAL]
+        if missing:
+            raise AnalysisBroken("anchor function(s) %s of RotatingFileSinkPrivate no longer resolve (by name or by role)" % missing)
+        return out
+
+    def calls_to(self, fn, role):
+        """calls in fn of the function playing `role` (resolved by identity, not by spelling)"""
+        t = self.m.get(role)
+        return [n for n in fn.calls() if t is not None and n.get("fn") == t.id]
 
     def owner(self, n):
         """the (flattened) unit function whose tree contains node object n"""
